@@ -73,6 +73,11 @@ static void reb_simulation_add_local(struct reb_simulation* const r, struct reb_
 		reb_tree_add_particle_to_tree(r, r->N);
 	}
 	(r->N)++;
+    if (r->integrator == REB_INTEGRATOR_BS){
+        // Particle number changed: the next BS step is a first step. Set the (persisted) flag now rather than when the
+        // N-body ODE is re-created, so that a simulation saved in between and restored behaves the same way.
+        r->ri_bs.first_or_last_step = 1;
+    }
     if (r->integrator == REB_INTEGRATOR_MERCURIUS){
         struct reb_integrator_mercurius* rim = &(r->ri_mercurius);
         if (r->ri_mercurius.mode==0){ //WHFast part
@@ -345,6 +350,10 @@ int reb_simulation_remove_particle(struct reb_simulation* const r, int index, in
 		reb_simulation_error(r, warning);
 		return 0;
 	}
+    if (r->integrator == REB_INTEGRATOR_BS){
+        // See reb_simulation_add: particle number changes, next BS step is a first step.
+        r->ri_bs.first_or_last_step = 1;
+    }
     if (r->integrator == REB_INTEGRATOR_MERCURIUS){
         keep_sorted = 1; // Force keep_sorted for hybrid integrator
         struct reb_integrator_mercurius* rim = &(r->ri_mercurius);
